@@ -14,6 +14,13 @@ T5 = ('T5 meta-arguments not machine-checked: soundness of the path exploration 
       '(mitigated: every feasible path is replayed on CPython and must agree); induction over entry points')
 T6 = 'T6 the specification library (specs/*.py, contracts/*.py) is the oracle: written from RFC 4271 and the property statements'
 LOGGING = 'LOG.* and traceback.format_exc() are treated as total no-ops'
+A_QUEUE = 'A-queue: the application does not use the internal message queue drained in _keepalive_received (handler.inter_mq is empty)'
+A_CONFIG = 'A-config: the configured hold time is 0 or >= 3 (RFC 4271); connect-retry time >= 1'
+A_ASSUMED_CODECS = ('at the session layer Open.parse, Update.parse, BGP.update_receive_verion and BGP.update_rib_in_ipv4 enter through '
+                    'ASSUMED abstract contracts (contracts/protocol_rx.py); BGP.send_open through its summary (contracts/open_send.py); '
+                    'their own bodies are the business of C14 / C11 / C19 / C05')
+A_INV_KF = ('Inv clauses that an open known finding breaks (C12-One, C12-idle-no-attempt, C13-Stopped-no-attempt) are assumed at function entry like '
+            'the rest of Inv: proofs hold under the hypothesis that no step of the history lies in an open known-finding region')
 
 
 def make_prog():
@@ -38,6 +45,16 @@ def make_prog():
     prog.contracts[session.BGP + 'parse_buffer'] = Contract(session.BGP + 'parse_buffer', RX.RX_SPECS['parse_buffer'])
     for q, sp in RX.ASSUMED_SPECS.items():
         prog.contracts[q] = Contract(q, sp, assumed=True)
+    from contracts import protocol_tx as TX
+    for q, sp in TX.TX_SPECS.items():
+        prog.contracts[q] = Contract(q, sp)
+    for q, sp in TX.ASSUMED.items():
+        prog.contracts[q] = Contract(q, sp, assumed=True)
+    from contracts import peering as PE
+    for q, sp in PE.HELPER_SPECS.items():
+        prog.contracts[q] = Contract(q, sp)
+    for q, sp in PE.ENTRY_SPECS.items():
+        prog.contracts[q] = Contract(q, sp)
     # ASSUMED abstract contracts at the session layer (owned and verified in full by C14 / C11+C09)
     prog.contracts['yabgp.message.open.Open.parse'] = Contract(
         'yabgp.message.open.Open.parse', timer.wrap(RX.p_open_parse_abs), assumed=True)
